@@ -2,7 +2,7 @@ SPECIFICATION Spec
 CONSTANTS
  Kind = "fub"
  Cap0 = 2
- NInit = 0
+ NInit = 2
  NC = 3
  Budget = 2
  NW = 2
